@@ -510,8 +510,6 @@ def generate(ctx):
                       and DC.label(s) not in ('ElementHexC1', 'Vector(ElementHex2)')]
         # vector wrappers with an explicit number of components (names u^1 .. u^d), also in the quick tier
         specs += [s for s in DC.extra_wrappers(kind) if 'vec' in s and DC.label(s) not in {DC.label(x) for x in specs}][:3]
-        # a numbering with fewer rows than basis functions (C04 finding on element.dim) is not queried here
-        specs = [s for s in specs if DC.spec_tags(s, kind)['vecdim'] == 'ok']
         for q, spec in enumerate(specs):
             e0, err = guarded(lambda: DC.build_element(spec), 30)
             heavy = bool(err) or sum(DC.signature(e0).values()) > 12
